@@ -916,6 +916,16 @@ func execDraw(line string) (res h.Result) {
 			noLink()
 			sh.trusted = false
 			tags["corrupt"] = true
+		case "RF", "UF":
+			// RegisterRuneFallback(r, s) / UnregisterRuneFallback(r) between two Shows: in a UTF-8 locale the fallback table is
+			// never consulted, and in any locale a change of it changes no cell's rune, combining runes or style — nothing may
+			// be written because of it (C13); a no-op for the model
+			if t[0] == "RF" && len(t) >= 3 {
+				scr.RegisterRuneFallback(rune(h.Atoi(t[1])), string(h.Unhex(t[2])))
+			} else if len(t) >= 2 {
+				scr.UnregisterRuneFallback(rune(h.Atoi(t[1])))
+			}
+			tags["fallback-change"] = true
 		case "ZR":
 			// Suspend(); Resume() — the terminal is handed back (modes reset, alternate screen left) and taken over again
 			// (alternate screen entered, cleared).  The library drops the logical content at Suspend (the cell buffer is
@@ -1373,6 +1383,15 @@ func genDrawLockedWide(g *h.Gen) {
 					"W", "W",
 				}
 				g.Emit("draw %s 1 6 2 %s", withVariant(name), strings.Join(ops, "; "))
+				// the same, but the lock is released through a LARGER region (the whole row / the whole screen / a region that
+				// starts left of the locked cell): every cell of it is repainted by the next Show, the wide rune included
+				for k, un := range []string{"L 0 0 6 1 0", "L 0 0 6 2 0", fmt.Sprintf("L %d 0 3 1 0", x)} {
+					ops2 := append(append([]string{}, ops[:8]...), un, "W", "W")
+					if (k+x)%2 == 0 {
+						ops2 = append(ops2, fmt.Sprintf("S %d 0 19990 - 0,0,0,0,0,-,-", x), "W")
+					}
+					g.Emit("draw %s 1 6 2 %s", withVariant(name), strings.Join(ops2, "; "))
+				}
 			}
 		}
 	}
@@ -1947,7 +1966,14 @@ func genDraw(g *h.Gen) {
 				w, hh = r.Range(2, 7), r.Range(1, 4)
 				ops = append(ops, fmt.Sprintf("RN %d %d", w, hh))
 			default:
-				if r.Chance(40) {
+				if r.Chance(30) {
+					fr := h.Pick(r, []int{0x2500, 0x2192, 0x2022, 0xb0, 'x', 0x4e16}) // HLine, RArrow, Bullet, Degree have default fallbacks
+					if r.Bool() {
+						ops = append(ops, fmt.Sprintf("UF %d", fr))
+					} else {
+						ops = append(ops, fmt.Sprintf("RF %d %s", fr, h.Hex([]byte(h.Pick(r, []string{"-", "+", "o"})))))
+					}
+				} else if r.Chance(40) {
 					ops = append(ops, "ZR") // Suspend; Resume
 					lastLock = ""
 				} else {
